@@ -68,6 +68,10 @@ var props = map[string]propCfg{
 	"C06": cfgA("C06", "seeded histories with deep append queues, cancels, failures and unbuildable jobs; non-trivial = a queued job was started by a dequeue; distinct = distinct trace hash", true),
 	"C07": cfgA("C07", "seeded histories on pipelines with start_delay (50ms-10s), replace bursts, clock jumps and stalls; non-trivial = a delayed job started or a waiting job was replaced; distinct = distinct trace hash", false),
 	"C08": cfgA("C08", "seeded graphs x forced and tape-drawn task failures x allow_failure x both fail-fast settings, verdict read through ReadJob and /job/detail; non-trivial = a task failed in a started job; distinct = distinct trace hash", true),
+	"C09": {ID: "C09", Pkg: "./sim", Profile: "C09", Level: "fault_enumeration", QuickS: 12, ThoroughS: 600,
+		Rule: "B1: seeded savers (1-3, overlapping) and loaders on one real directory, snapshots from empty to ~2 MB with all JSON types, parked between every file operation of Save/Load, crash (directory copy with torn temp files) and injected write errors as choices; after every step and every crash a fresh Load must return exactly the snapshot most recently renamed into place. B2: a helper process built from /repo saves a fixed sequence under strace; SIGKILL is injected at every syscall that touches the store directory, ENOSPC at every write, and a loader process checks the directory (exhaustive over syscall boundaries for the sequences). non-trivial = a save completed; distinct = distinct trace hash (B1) plus one per injection point (B2)",
+		Real: []string{"store.JsonDataStore (store/store.go) on real files in /dev/shm", "B2: the real process, real kernel file operations under strace"}, Stubbed: []string{"nothing (B1 replaces the callers of the store by scripted savers/loaders)"},
+		Assume: []string{"process death only: no power-loss / fsync semantics", "errors that surface only at close(2) are not modelled", "B1 sampling; B2 exhaustive for the chosen save sequences"}},
 	"C10": cfgStore(cfgA("C10", "seeded histories with the persist loop live on the real JsonDataStore (70%) or an in-memory store, job variables of every JSON type, failing tasks, store write errors; crash-and-restart as a scheduling choice at every step, including inside a save; non-trivial = a restart loaded a snapshot containing jobs; distinct = distinct trace hash", false)),
 	"C11": cfgStore(cfgA("C11", "seeded histories with one or two Shutdown calls (graceful / forced with deadlines 0ms-5s, with and without cancelling the runner context first) begun in any state, concurrent schedule/cancel/save clients, settle actions that wait three persist pauses; non-trivial = a Shutdown returned or persist liveness was evaluated; distinct = distinct trace hash", false)),
 	"C12": cfgStore(cfgA("C12", "seeded retention_count x retention_period x several pipelines, clock jumps between jobs, reloads that drop pipelines, explicit saves interleaved with activity, restarts, log removal errors; the real FileOutputStore holds the logs; non-trivial = a save removed jobs; distinct = distinct trace hash", false)),
@@ -389,6 +393,39 @@ func check(prop, tier string) int {
 	}
 
 	merged := merge(outs)
+	if prop == "C09" {
+		b2, err := runB2(rc)
+		if err != nil {
+			fmt.Fprintf(os.Stderr, "verifctl: engine B2: %v\n", err)
+			return 2
+		}
+		merged.Runs += b2.Evaluations
+		for k, v := range b2.Points {
+			merged.Extra["b2_"+k] = float64(v)
+		}
+		merged.Extra["b2_injected_runs"] = float64(b2.Evaluations)
+		merged.Extra["b1_simulated_runs"] = float64(merged.Runs - b2.Evaluations)
+		merged.Faults["b2_sigkill_at_syscall"] = 0
+		merged.Faults["b2_enospc_at_write"] = 0
+		for k, v := range b2.Points {
+			if strings.HasSuffix(k, "kill_points") {
+				merged.Faults["b2_sigkill_at_syscall"] += v
+			} else {
+				merged.Faults["b2_enospc_at_write"] += v
+			}
+		}
+		for i := 0; i < b2.Evaluations; i++ {
+			merged.Hashes = append(merged.Hashes, fmt.Sprintf("b2-%d", i))
+		}
+		for _, s := range b2.Samples {
+			sb, _ := json.Marshal(s)
+			merged.Samples = append([]json.RawMessage{sb}, merged.Samples...)
+		}
+		if len(merged.Samples) > 3 {
+			merged.Samples = merged.Samples[:3]
+		}
+		merged.Violations = append(merged.Violations, b2.Violations...)
+	}
 
 	// 3. runs that killed the process
 	aborted := 0
@@ -628,9 +665,14 @@ func replayFile(rc *runCtx, path string) (reproduced, hashMatch bool, err error)
 		Rule      string `json:"rule"`
 		TraceHash string `json:"trace_hash"`
 		PanicSig  string `json:"panic_signature"`
+		Engine    string `json:"engine"`
 	}
 	if err := json.Unmarshal(b, &rf); err != nil {
 		return false, false, err
+	}
+	if rf.Engine == "B2" {
+		ok, err := replayB2(rc, path)
+		return ok, true, err
 	}
 	po := filepath.Join(rc.work, fmt.Sprintf("probe-%d.json", time.Now().UnixNano()))
 	cl := po + ".crashlog"
